@@ -405,5 +405,43 @@ class TonalityLess(Stream):
                 yield dict(case, chord=dict(c, **{key: val}))
 
 
+class ScoreOctave(Stream):
+    """Score.o(k) against Octave.score_o: every note of every part through Note.o(k) (relative notes, drums, rests, continuations copied)"""
+    name = "score_octave"
+    mods = ["Model.Pitch", "Model.Ton", "Model.Render", "Model.Slice", "Model.Octave"]
+    checker = "check_score_o"
+    pair = "Score.o / Chord.o_melody / Melody.o / Note.o <-> Octave.score_o"
+    quick, thorough = 600, 10000
+
+    def gen(self, rng, n):
+        from harness import score_gen as sg
+        for _ in range(n):
+            yield {"score": sg.rand_score(rng, max_chords=3), "k": rng.choice([1, -1, 2, -2, 3, 0])}
+
+    def impl(self, case):
+        from harness import score_gen as sg
+        def f():
+            return sg.read_score(sg.mk_rscore(case["score"]).o(case["k"]))
+        return mlang.guarded(f)
+
+    def term(self, case, r):
+        from harness import score_gen as sg
+        tpq = sg.score_tpq(case["score"])
+        return T(sg.coq_rscore(case["score"], tpq), Z(case["k"]), "None" if mlang.is_exc(r) else "(Some " + sg.coq_rscore(r, tpq) + ")")
+
+    def spec(self, case, r):
+        if mlang.is_exc(r):
+            return {"sig": "score-octave-raises", "msg": str(r)}
+        return None
+
+    def nontrivial(self, case, r):
+        return case["k"] != 0
+
+    def shrink(self, case):
+        from harness import score_gen as sg
+        for s in sg.shrink_score(case["score"]):
+            yield dict(case, score=s)
+
+
 def streams():
-    return [TonAlgebra(), Modulate(), Invariance(), RenderShift(), TonalityLess()]
+    return [TonAlgebra(), Modulate(), Invariance(), RenderShift(), TonalityLess(), ScoreOctave()]
